@@ -171,6 +171,8 @@ package proxy
 //@   let CO = old(C.RouteConfig.Options)
 //@   let both = ("default" in old(service.ClusterConfigs)) && (override in old(service.ClusterConfigs)) && D != nil && C != nil && D != C && DO != nil && CO != nil && DO != CO
 //@   let R = result.0.RouteConfig.Options
+// the upstream's name is the configured one with its white space cleaned — so that what validateUpstreamConfig tests is what the upstream carries
+//@   ensures [C14] service_name_is_the_cleaned_configured_name: result.1 == nil && result.0 != nil ==> called(@cleanWhiteSpace#1) && arg(@cleanWhiteSpace#1, 0) == old(service.Service) && result.0.Service == @cleanWhiteSpace#1
 //@   ensures [C14] nothing_configured: !("default" in old(service.ClusterConfigs)) && !(override in old(service.ClusterConfigs)) ==> result.0 == nil && result.1 == nil
 //@   ensures [C14] groups_kept_unless_stated: both && result.1 == nil ==> R != nil && eqList(R.AllowedGroups, (len(old(CO.AllowedGroups)) > 0 ? old(CO.AllowedGroups) : old(DO.AllowedGroups)))
 //@   ensures [C14] domains_kept_unless_stated: both && result.1 == nil ==> eqList(R.AllowedEmailDomains, (len(old(CO.AllowedEmailDomains)) > 0 ? old(CO.AllowedEmailDomains) : old(DO.AllowedEmailDomains)))
@@ -209,6 +211,7 @@ package proxy
 // the deployment default merged in by parseOptionsConfig) — an upstream open to everyone never results
 // from omission.
 //@ func SetUpstreamConfigs(uc *UpstreamConfigs, cc CookieConfig, svc *ServerConfig) error
+//@   sink [C14 C13] the_configured_cluster_selects_the_blocks: loadServiceConfigs requires $arg1 == uc.Cluster && $arg2 == uc.Scheme
 //@   ensures [C14] every_upstream_has_an_allow_rule: result == nil ==> forall i :: 0 <= i && i < len(uc.upstreamConfigs) ==> len(uc.upstreamConfigs[i].AllowedEmailDomains) + len(uc.upstreamConfigs[i].AllowedEmailAddresses) + len(uc.upstreamConfigs[i].AllowedGroups) > 0
 //@   loop 1
 //@     invariant (len(invalidUpstreams) == 0) <==> (forall j :: 0 <= j && j < $i ==> len(uc.upstreamConfigs[j].AllowedEmailDomains) + len(uc.upstreamConfigs[j].AllowedEmailAddresses) + len(uc.upstreamConfigs[j].AllowedGroups) > 0)
@@ -470,3 +473,18 @@ package proxy
 //@ func SetCookieStore$1$1(c *sessions.CookieStore) error
 //@   modifies c.CookieDomain, c.CookieHTTPOnly, c.CookieExpire, c.CookieSecure
 //@   ensures [C18] cookie_attributes_are_the_configured_ones: result == nil && c.CookieDomain == cc.Domain && c.CookieHTTPOnly == cc.HTTPOnly && c.CookieExpire == cc.Expire && c.CookieSecure == cc.Secure
+
+
+// ---- C13: a rewrite route matches what its configured pattern matches ------------------------------------------
+//@ func rewriteRoute(scheme string, routeConfig RouteConfig) (*RewriteRoute, error)
+//@   modifies nothing
+//@   fresh result.0
+//@   ensures [C13 C14] pattern_compiled_as_configured: result.1 == nil ==> called(@Compile#1) && arg(@Compile#1, 0) == routeConfig.From && @Compile#1.1 == nil && result.0 != nil && result.0.FromRegex == @Compile#1.0 && result.0.ToTemplate != nil && result.0.ToTemplate.Opaque == routeConfig.To && result.0.ToTemplate.Scheme == scheme
+//@   ensures [C14] a_pattern_that_does_not_compile_fails_the_route: called(@Compile#1) && @Compile#1.1 != nil ==> result.1 != nil && result.0 == nil
+
+// ---- C12: one signed request, one attempt ------------------------------------------------------------------------
+// The body of a signed request is a one-shot buffer: the request is handed to the transport once; whatever comes
+// back — answer or error — is what the caller gets.
+//@ func (t *upstreamTransport) RoundTrip(req *http.Request) (*http.Response, error)
+//@   modifies everything
+//@   ensures [C12] the_request_is_sent_once: called(@RoundTrip#1) && !called(@RoundTrip#2) && arg(@RoundTrip#1, 1) == req && (@RoundTrip#1.1 == nil ==> result.0 == @RoundTrip#1.0 && result.1 == nil) && (@RoundTrip#1.1 != nil ==> result.0 == nil && result.1 == @RoundTrip#1.1)
